@@ -160,6 +160,8 @@ def _one(raw):
         # import by path: a sample of the module files, one of them failing at import time
         # (a module file shadowed by a package directory of the same name is not what its name imports)
         mods = sorted((tuple(p), k) for (kind, p), k in splits if kind == 'mod' and tree.get(tuple(p)) in ('file', 'dirfile'))
+        if _JOB.get('collect'):
+            mods = []                # (the package phase of C07 looks at walks and collection only; importing by path is C17/C12)
         for n, (p, k) in enumerate(mods[:3]):
             path = os.path.join(root, *p) + '.py'
             failing = (rot + n) % 3 == 0
@@ -167,6 +169,12 @@ def _one(raw):
                 with open(path, 'w') as f:
                     f.write(['raise RuntimeError("import boom")\n',
                              'import sys\nsys.path.insert(0, "/xdv/leftover")\nraise RuntimeError("import boom")\n'][(rot + n) % 2])
+            pristine = list(sys.path)
+            pre = (rot // 2 + n) % 2 == 1
+            if pre:
+                # the directory that has to be on the search path is there already, in front (PYTHONPATH, an earlier sys.path.insert):
+                # importing by path must not move or remove that entry
+                sys.path.insert(0, os.path.join(root, *p[:k]) if k else root)
             before = list(sys.path)
             try:
                 with warnings.catch_warnings():
@@ -183,22 +191,29 @@ def _one(raw):
                     bad.append(('import_by_path[%s]' % '/'.join(p), 'module', 'raised %r' % (ex,)))
             now = [x for x in sys.path if x != '/xdv/leftover']       # what the imported module itself added is its own business
             if now != before:
-                bad.append(('sys_path_restored[%s,%s]' % ('/'.join(p), 'failing' if failing else 'ok'), 'unchanged',
-                            [x for x in now if x not in before] + ['-' + x for x in before if x not in now]))
-            sys.path[:] = before
+                # finding F20: the search-path directory is on sys.path already AND the imported module itself inserts into sys.path:
+                # the recovery of the context manager looks the directory up by value and removes the earlier, pre-existing entry
+                dup_and_insert = pre and failing and (rot + n) % 2 == 1 and sorted(now) == sorted(before)
+                name = 'sys_path_order_duplicate_root_and_module_insert' if dup_and_insert else 'sys_path_restored'
+                bad.append(('%s[%s,%s]' % (name, '/'.join(p), 'failing' if failing else 'ok'), 'unchanged', 'entries moved' if sorted(now) == sorted(before)
+                            else [x for x in now if x not in before] + ['-' + x for x in before if x not in now]))
+            sys.path[:] = pristine
             _purge_modules(topnames)
             if failing:
                 with open(path, 'w') as f:
                     f.write(DOC_MODULE)
         # import by path: packages by directory, by __init__.py and by their __main__.py
-        pkgs = sorted((tuple(p), k) for (kind, p), k in splits if kind == 'pkg')
+        pkgs = sorted((tuple(p), k) for (kind, p), k in splits if kind == 'pkg') if not _JOB.get('collect') else []
         for n, (p, k) in enumerate(pkgs[:2]):
             base = os.path.join(root, *p)
             name = '.'.join(p[k:])
             targets = [(base, name, os.path.join(base, '__init__.py')), (os.path.join(base, '__init__.py'), name, os.path.join(base, '__init__.py'))]
             if tree.get(p) in ('pkgmain', 'pkgmainfile'):
                 targets.append((os.path.join(base, '__main__.py'), name + '.__main__', os.path.join(base, '__main__.py')))
-            for path, expname, expfile in targets:
+            for tn, (path, expname, expfile) in enumerate(targets):
+                pristine = list(sys.path)
+                if (rot + n + tn) % 2:
+                    sys.path.insert(0, os.path.join(root, *p[:k]) if k else root)
                 before = list(sys.path)
                 try:
                     with warnings.catch_warnings():
@@ -211,8 +226,9 @@ def _one(raw):
                 except Exception as ex:
                     bad.append(('import_by_path[%s]' % os.path.relpath(path, root), 'module', 'raised %r' % (ex,)))
                 if list(sys.path) != before:
-                    bad.append(('sys_path_restored[%s,ok]' % os.path.relpath(path, root), 'unchanged', [x for x in sys.path if x not in before]))
-                sys.path[:] = before
+                    bad.append(('sys_path_restored[%s,ok]' % os.path.relpath(path, root), 'unchanged', 'entries moved or lost' if sorted(sys.path) == sorted(before)
+                                else [x for x in sys.path if x not in before] + ['-' + x for x in before if x not in sys.path]))
+                sys.path[:] = pristine
                 _purge_modules(topnames)
         # package walks
         for p, entries in walks:
